@@ -31,7 +31,9 @@ inductive Rec where
   | fnda (c : Digits) (name : Bytes)
   /-- `BRDA:<line>,[e]<block>,<branch>,<taken>`; `taken` is the text of the last field: `-` or a
   number; `exc` = the block number carries the `e` prefix by which lcov 2.x marks a branch that
-  belongs to exception handling (`BRDA:5,e3,1,0`) -/
+  belongs to exception handling (`BRDA:5,e3,1,0`). The flag says nothing about line, branch number
+  or taken count: the reader skips it (/repo 66f7aba; before, the block digits were read as the
+  branch number and the record counted as taken: former finding C04-lcov2-exception-branch). -/
   | brda (l : Digits) (exc : Bool) (blk br : Digits) (taken : Bytes)
   /-- a record grcov does not use whose first byte is not one of S D F B e (TN:, LF:, LH:, VER:, MCDC:, …) -/
   | other (txt : Bytes)
@@ -60,8 +62,7 @@ def Rec.WF : Rec → Prop
   | .daNeg l txt => l.WF U32MAX ∧ noLF txt
   | .fn s name => s.WF U32MAX ∧ noEol name
   | .fnda c name => c.WF U64MAX ∧ noEol name
-  | .brda l exc blk br taken =>
-      l.WF U32MAX ∧ blk.WF (if exc then U32MAX else U64MAX) ∧ br.WF U32MAX ∧ noEol taken
+  | .brda l _ blk br taken => l.WF U32MAX ∧ blk.WF U64MAX ∧ br.WF U32MAX ∧ noEol taken
   | .other txt => noLF txt ∧ (match txt with
       | [] => False
       | b :: _ => b ≠ 83 ∧ b ≠ 68 ∧ b ≠ 70 ∧ b ≠ 66 ∧ b ≠ 101 ∧ b ≠ LF)
@@ -105,21 +106,13 @@ def render (eol : Bytes) (secs : List Section) : Bytes := secs.flatMap (renderSe
 /-- taken iff the field holds something other than `-` and `0` digits: a positive count -/
 def takenOf (taken : Bytes) : Bool := taken.any fun b => decide (b ≠ 45 ∧ b ≠ 48)
 
-/-- What one record does to the READER's accumulator (the record-by-record reading, proved equal to
-the byte machine in Lemmas/LcovFidelity `rec_bytes`). An exception branch record is misread: the `e`
-ends the (empty) block field, the block digits are taken for the branch number and the rest of
-the line – `<branch>,<taken>`, which contains a comma – for a taken count, so the record reads as
-"branch `<block>` of the line, taken" (finding C04-lcov2-exception-branch). What the record SAYS is
-`brdaTriples` / `sem` below. -/
+/-- what one record does to the reader's accumulator -/
 def applyRec (branch : Bool) (a : Acc) : Rec → Acc
   | .da l c _ => commitLine a l.val c.val
   | .daNeg l _ => commitLine a l.val 0
   | .fn s name => commitFn a s.val name
   | .fnda c name => commitFnda a c.val name
-  | .brda l exc blk br taken =>
-    if branch then
-      (if exc then commitBranch a l.val blk.val true else commitBranch a l.val br.val (takenOf taken))
-    else a
+  | .brda l _ _ br taken => if branch then commitBranch a l.val br.val (takenOf taken) else a
   | .other _ | .otherKeyed _ _ _ | .blank => a
 
 def applyRecs (branch : Bool) (a : Acc) (rs : List Rec) : Acc := rs.foldl (applyRec branch) a
@@ -146,27 +139,11 @@ def daPairs (recs : List Rec) : List (Nat × Nat) :=
     | .daNeg l _ => some (l.val, 0)
     | _ => none
 
-/-- (line, branch number, taken) of every BRDA record, exception branches included: what the
-records SAY -/
+/-- (line, branch number, taken) of every BRDA record -/
 def brdaTriples (recs : List Rec) : List (Nat × Nat × Bool) :=
   recs.filterMap fun
     | .brda l _ _ br taken => some (l.val, br.val, takenOf taken)
     | _ => none
-
-/-- (line, branch number, taken) as the READER takes every BRDA record: for an exception branch the
-block number stands in for the branch number and the record counts as taken -/
-def readTriples (recs : List Rec) : List (Nat × Nat × Bool) :=
-  recs.filterMap fun
-    | .brda l exc blk br taken =>
-      some (if exc then (l.val, blk.val, true) else (l.val, br.val, takenOf taken))
-    | _ => none
-
-def Rec.isExc : Rec → Bool
-  | .brda _ exc _ _ _ => exc
-  | _ => false
-
-/-- no exception branch record (every tracefile written by lcov 1.x, by grcov, by llvm-cov) -/
-def noExc (recs : List Rec) : Prop := ∀ r ∈ recs, r.isExc = false
 
 /-- (decoded name, start line) of every FN record -/
 def fnDecls (recs : List Rec) : List (Bytes × Nat) :=
@@ -201,13 +178,6 @@ def sem (branch : Bool) (s : Section) : Cov :=
     branches := if branch then brdaFold [] (brdaTriples s.recs) else []
     functions := semFunctions s.recs }
 
-/-- What the READER makes of a section: `sem` with the branch vectors folded over `readTriples`.
-Equal to `sem` when the section has no exception branch record or branch parsing is off. -/
-def semRead (branch : Bool) (s : Section) : Cov :=
-  { lines := (daFold {} (daPairs s.recs)).cur.lines
-    branches := if branch then brdaFold [] (readTriples s.recs) else []
-    functions := semFunctions s.recs }
-
 /-- the names of the FN records exactly as written (before decoding) -/
 def fnWrittenNames (recs : List Rec) : List Bytes :=
   recs.filterMap fun
@@ -225,15 +195,9 @@ def fnWithEndLine (start endLine : Digits) (name : Bytes) : Rec :=
 def Section.FnOK (s : Section) : Prop :=
   (fnNames s.recs).Nodup ∧ ∀ nm ∈ fndaNames s.recs, nm ∈ fnNames s.recs
 
-/-- a well-formed section of the lcov format INCLUDING the 2.x exception-branch records: every record
-is well-formed text, function names are unique per section and every FNDA has its FN somewhere in
-the same section -/
-def Section.WellFormedLcov2 (s : Section) : Prop := s.WF ∧ s.FnOK
-
-/-- a well-formed section without exception-branch records (`BRDA:<line>,e<block>,…`, written by
-lcov 2.x only): the class on which the reader is faithful whatever the branch option
-(`C04_fidelity`); the class with them is `WellFormedLcov2` (`C04_fidelity_lcov2_false`,
-`C04_fidelity_lcov2_partial`) -/
-def Section.WellFormed (s : Section) : Prop := s.WF ∧ s.FnOK ∧ noExc s.recs
+/-- a well-formed section (lcov 2.x exception-branch records `BRDA:<line>,e<block>,…` included):
+every record is well-formed text, function names are unique per section and every FNDA has its FN
+somewhere in the same section -/
+def Section.WellFormed (s : Section) : Prop := s.WF ∧ s.FnOK
 
 end Grcov.Lcov.Spec
